@@ -46,7 +46,7 @@ def to_behaviours(i, r, ctx="minimal", relational=True, extra_calls=None):
     plan_handles = {}
     for a in r["apps"]:
         calls.append({"do": "apply", "h": "h", "dir": a["dir"], "data": r["data"],
-                      "expect": {"count": a["count"], "data": a["data"]}})
+                      "expect": {"count": a["count"], "data": a["data"], "plan": a["plan"]}})
         route = []
         for pe in a["plan"]:
             hn = plan_handles.get(pe["def"])
